@@ -112,8 +112,9 @@ PROPS = {
                     "cases exercise); enums dispatching on descriptors, map-encoded and basic-encoded types are checked by the typed sub-harness only",
                     "floats, chars, signed integers and timestamps are modelled as bit patterns"],
         "assumptions": ["wf: AMQP type system + decoder count cap; arrays of null/list/map/array/described elements excluded (known finding)"],
-        "partial": ["typed layer: the theorems cover the list-encoded composite types at the level of field vectors; message sections with basic encoding, "
-                    "the Performative / DeliveryState / Outcome enums and whole messages are exercised on the implementation (sub-harness typed) only"],
+        "partial": ["typed layer: the theorems cover the list-encoded composite types, the Performative / DeliveryState enums (dispatch on the descriptor) and whole "
+                    "messages at the level of sections and field vectors; the typed decoding of a single field (a ulong where the struct says uint, a nested composite "
+                    "cut short) and map-encoded composites are exercised on the implementation (sub-harness typed) only"],
     },
     "C04": {
         "class_prefixes": ["c04-", "harness-crash"],
@@ -201,7 +202,8 @@ PROPS = {
                     "decoder is modelled (coq/Lib/LengthDelimited.v) and validated by the ldf cases, not proved; the performative "
                     "encodings are parameters of the theorems (they come from the codec, C03)"],
         "assumptions": ["the transfer performative fits one frame body (first <= M-8, middle < M-8): holds for delivery-tags <= 32 bytes without a large state"],
-        "partial": ["decoding a frame body into a performative is the typed codec (C03/C20), exercised by the rt cases, not modelled here"],
+        "partial": ["the frame codec model (Frame/AmqpFrame.v) reads a performative at the level of field vectors (C03/C05 typed-layer theorems); the typed decoding of a single "
+                    "field and of nested composites inside a performative is exercised by the rt / fdec cases on the implementation, not modelled"],
     },
     "C02": {
         "class_prefixes": ["c02-", "harness-crash", "c16-send-never-settled"],
@@ -491,6 +493,13 @@ PROPS = {
                      "(thorough <= 4) over the model's alphabet after prefixes with 0, 1 and 2 declares and with two control links (control link attach / closing detach, data link "
                      "attach, declare, post under a live / finished / never-issued id or none, pre-settled or not, commit, rollback, discharge of unknown ids, discharge through the "
                      "other control link, drop of session / connection), plus random scripts of 8..30 (thorough 8..60) actions with 2-3 links and about 3 live transactions"},
+            {"name": "ctlm", "n_quick": 400, "n_thorough": 6000, "model": "coq/Txn/Controller.v",
+             "rule": "the library's Controller / Transaction (one shared control link, one sender) against a scripted coordinator: declare / post / commit / rollback / "
+                     "discharge (the trait method: the handle stays) / drop on handles numbered by declare call, the coordinator answering every declare and "
+                     "discharge with declared(id) / accepted / rejected(4 conditions) / released and every post with transactional accepted / rejected / plain "
+                     "rejected; ids from a pool with repeats; every script declare ; a ; b over 16 tails x 4 declare answers, plus random scripts of 2..10 "
+                     "(thorough 2..16) calls; compared per call: what goes on the wire (declare, post with its transaction id, discharge with id and fail "
+                     "flag, the rollback written for a handle dropped undischarged), what the call returns, and the rollbacks at the end"},
             {"name": "txn", "n_quick": 1500, "n_thorough": 30000, "oracle": False,
              "rule": "txn-l: the listener scripts with the full alphabet (bursts of >100 posts, two-frame posts, non-closing control-link detach, receiver links, retirements); "
                      "txn-c: Controller / Transaction / OwnedTransaction (declare, post, commit, rollback, drop, accept/reject/release under a transaction) against a scripted "
@@ -500,11 +509,14 @@ PROPS = {
         "rule": "txnm: a case is one script run against the real listener (paused clock, one action per barrier) and through the extracted Coq step function; compared per action: "
                 "the listener's answers (attached, declared(k), accepted, rejected(cond), provisional(k), end(cond)) and the deliveries the application has received per link; "
                 "non-trivial = a declare plus a delivering commit, a rejection or an unknown-id end. txn: direct oracle on the concrete trace.",
-        "trusted": ["model scope: see the header of coq/Txn/Manager.v: transaction/{session.rs, manager.rs, coordinator.rs} + acceptor/session.rs at the granularity of whole actions; "
+        "trusted": ["controller model scope: see the header of coq/Txn/Controller.v: transaction/controller.rs {declare_on_link, discharge_on_link} + transaction/mod.rs "
+                    "{Transaction::declare, post, discharge, commit, rollback, Drop} at the granularity of whole calls; the coordinator's answers are inputs",
+                    "model scope: see the header of coq/Txn/Manager.v: transaction/{session.rs, manager.rs, coordinator.rs} + acceptor/session.rs at the granularity of whole actions; "
                     "transaction ids abstracted to a counter (the code draws a random UUID and redraws against live ids: freshness holds up to UUID collision)",
                     "scripted controller / coordinator of harness/src/txn.rs"],
         "assumptions": ["at most 128 live transactions per control link and fewer than 100 posts per script in txnm (the full alphabet is in txn)", "one action per quiescence barrier"],
-        "partial": ["the controller-side clause (right id / fail flag on the wire, outcome reported) and transactional retirements are decided by the direct oracle only",
+        "partial": ["the controller model covers transactions that share one Controller (Transaction); OwnedTransaction (a control link per transaction, detached after the "
+                    "discharge), transactional retirements and acquisition, and a control link the coordinator detaches are decided by the direct oracle of the txn sub only",
                     "known findings: link credit used by rolled-back posts is never given back; a non-closing detach of the control link leaves its transactions alive"],
     },
     "C19": {
@@ -584,8 +596,9 @@ PROPS = {
         "trusted": ["the theorem composes two models each tied to the code separately (split_transfer + frame encoder; Receiver); the composition through the real "
                     "session/connection engines is exercised by the e2e sub only"],
         "assumptions": ["the connection stays up"],
-        "partial": ["exactly-once and order across several deliveries follow from C07/C11 (consecutive transfer-ids, one tag per delivery) and C10 (one message per final frame); "
-                    "they are not restated as one theorem over the composed system",
+        "partial": ["exactly-once and order across a list of messages are one theorem over the composed cut + receiving link + credit models (C01_stream_intact) for one link in "
+                    "credit mode Auto(n), one round per recv(); several links multiplexed on one session and deliveries interleaved frame by frame rest on C07/C11 "
+                    "(consecutive transfer-ids, handles routed to their links) and are exercised by the e2e sub, not restated as one theorem",
                     "known findings: deadlock with channel buffers of 1-2 (c01-hang-small-buffers)"],
     },
     "C15": {
